@@ -1,5 +1,6 @@
 ---------------------------- MODULE MC_DirH ----------------------------
 EXTENDS DirH
-PagesQ == {-1, 0, 1, 2, 3, 1000000}
-PagesT == {-1, 0, 1, 2, 4, 5, 6, 1000000}
+\* 2147483647 stands for the largest int of the platform (the harness passes math.MaxInt): cursor arithmetic must not overflow
+PagesQ == {-1, 0, 1, 2, 3, 1000000, 2147483647}
+PagesT == {-1, 0, 1, 2, 4, 5, 6, 1000000, 2147483647}
 ========================================================================
